@@ -22,6 +22,9 @@
 (*             object anchor with positional predicates (n[1], n[2],           *)
 (*             n[last()], *[last()], *[2], a/b[last()]) over records with       *)
 (*             equally named siblings separated by text                        *)
+(*   "tplshare" root{ f1: object(p){ f1: X }, f2: object{ f1: X } } and the same      *)
+(*             with f1: array[object(p){...}]: equal bodies at an anchored and   *)
+(*             an unanchored site (one template, two references)               *)
 (*   "dyn"     root{ f1: dynfield[C], f2: X } and root{ f1: array[dynfield[C]], *)
 (*             f2: X }: computed xpaths whose computation succeeds, is empty   *)
 (*             or fails, next to a declaration with the same text             *)
@@ -94,6 +97,14 @@ Trees ==
          { Mk(4, <<0, 1, 2, 1>>, <<V("object", 0, "none", FALSE, FALSE, ""), dv, c, x>>) : dv \in DynV, c \in DynChildV, x \in FieldV \cup DynChildV }
          \cup { Mk(5, <<0, 1, 2, 3, 1>>, <<V("object", 0, "none", FALSE, FALSE, ""), V("array", 0, "none", FALSE, FALSE, ""), dv, c, x>>) :
                    dv \in DynV, c \in DynChildV, x \in DynChildV }
+    [] Family = "tplshare" ->
+         \* two objects with the same body, the first anchored, the second not: rendered with templates they are two
+         \* references to one template, and the second must not inherit the first one's anchor
+         { Mk(5, <<0, 1, 2, 1, 4>>, <<V("object", 0, "none", FALSE, FALSE, ""), V("object", xo, "none", FALSE, FALSE, ""), x,
+                                        V("object", 0, "none", FALSE, FALSE, ""), x>>) : xo \in {1, 2, 3}, x \in FieldV }
+         \cup { Mk(6, <<0, 1, 2, 3, 1, 5>>, <<V("object", 0, "none", FALSE, FALSE, ""), V("array", 0, "none", FALSE, FALSE, ""),
+                                              V("object", xo, "none", FALSE, FALSE, ""), x, V("object", 0, "none", FALSE, FALSE, ""), x>>) :
+                   xo \in {1, 2, 3}, x \in FieldV }
     [] Family = "pos" ->
          { Mk(3, <<0, 1, 1>>, <<V("object", 0, "none", FALSE, FALSE, ""), x, y>>) : x \in PosV, y \in PosV }
          \cup { Mk(4, <<0, 1, 2, 1>>, <<V("object", 0, "none", FALSE, FALSE, ""), V("array", 0, "none", FALSE, FALSE, ""), x, y>>) : x \in PosV, y \in PosV }
